@@ -36,11 +36,16 @@ Dst(z, d, m) ==
 Off(z, d, m) == Std(z) + (IF Dst(z, d, m) THEN 60 ELSE 0)
 
 Airports == [BOS |-> "New_York", JFK |-> "New_York", ORD |-> "Chicago", DEN |-> "Denver", PHX |-> "Phoenix",
-             LAX |-> "Los_Angeles", LHR |-> "London", CDG |-> "Paris"]
+             LAX |-> "Los_Angeles", LHR |-> "London", CDG |-> "Paris",
+             \* two airports of one country whose city has the same NAME (the harness's synthetic airports all name
+             \* their municipality "Synthetic") but which lie in different zones: the zone is the airport's, found from
+             \* its position
+             NRA |-> "New_York", MID |-> "Denver"]
 \* great-circle distances in km (checked against pyproj by the harness)
 Pairs == << [o |-> "BOS", d |-> "JFK", gc |-> 300], [o |-> "JFK", d |-> "LAX", gc |-> 3983], [o |-> "JFK", d |-> "LHR", gc |-> 5555],
             [o |-> "LAX", d |-> "PHX", gc |-> 596], [o |-> "ORD", d |-> "DEN", gc |-> 1430], [o |-> "LHR", d |-> "CDG", gc |-> 348],
-            [o |-> "PHX", d |-> "DEN", gc |-> 968], [o |-> "CDG", d |-> "JFK", gc |-> 5849] >>
+            [o |-> "PHX", d |-> "DEN", gc |-> 968], [o |-> "CDG", d |-> "JFK", gc |-> 5849],
+            [o |-> "NRA", d |-> "MID", gc |-> 2800] >>
 
 \* effective range: 400 encodes "open" (00000000 / 99999999 in the input)
 Open == 400
